@@ -54,9 +54,9 @@ CHECKS = {
         "pkg": "c01",
         "level": "exploration",
         "tests": [
-            T("TestC01Resolver", (80, 4), (1200, 16)),
-            T("TestC01Store", (300, 4), (4000, 16)),
-            T("TestC01HTTP", (100, 4), (2000, 16)),
+            T("TestC01Resolver", (80, 4), (100, 48)),  # about 23 MB of resident memory per case stay with the process (every repo it made)
+            T("TestC01Store", (300, 4), (1000, 48)),
+            T("TestC01HTTP", (100, 4), (700, 48)),
         ],
         "required_classes": ["dag/template", "dag/free", "dag/merge>=3parents", "dag/merge>=3parents+shared-nonroot-ancestor", "dag/merge-parent-is-ancestor-of-another", "dag/nested-merge", "http/has-merge", "store/rewrite-at-same-version"],
         "rule": "rapid-generated version DAGs (free growth: child / 2-4-parent merges over <=10 nodes; lineage templates: trunk + k in 2..4 lineages forking from trunk or other lineages with 0-2 own nodes, merged, optionally a child / second-level merge on top; every order of the last merge's parents enumerated). Resolver layer: for each DAG every placement of {none,value,tombstone} over the nodes (3^n exhaustive for n<=7, 500 sampled above), entry list permuted, GetBestKeyVersion and VersionedKeyValue at every node vs the frontier model (counter resolver_dag_placement_query_evaluations). Store layer: real Put/Delete/batch on Badger at arbitrary nodes, Get/Exists at every node after every write. HTTP layer: op lists over put/del/commit/newversion/branch/merge on a versioned and an unversioned keyvalue instance in two repos, reads of the touched key at every node of both repos after every write plus a final sweep. Non-trivial: DAG with >=3 nodes (resolver); key written at >=2 nodes incl. a delete (store); >=2 DAG-growing ops and >=1 delete (HTTP). Distinct = hash of the case value.",
